@@ -396,8 +396,8 @@ class CCXPowGate(gate_features.InterchangeableQubitsGate, eigen_gate.EigenGate):
         & & & 1 & & & & \\
         & & & & 1 & & & \\
         & & & & & 1 & & \\
-        & & & & & & e^{i \pi t / 2} \cos(\pi t) & -i e^{i \pi t / 2} \sin(\pi t) \\
-        & & & & & & -i e^{i \pi t / 2} \sin(\pi t) & e^{i \pi t / 2} \cos(\pi t)
+        & & & & & & e^{i \pi t / 2} \cos(\pi t / 2) & -i e^{i \pi t / 2} \sin(\pi t / 2) \\
+        & & & & & & -i e^{i \pi t / 2} \sin(\pi t / 2) & e^{i \pi t / 2} \cos(\pi t / 2)
     \end{bmatrix}
     $$
     """
